@@ -65,6 +65,8 @@ def call_value(ip, st, f, pos, kws, node=None):
     if k == "contract":
         return apply_contract(ip, st, f.contract, pos, kws)
     if k == "bound":
+        if f.contract.self_class == "static":
+            return apply_contract(ip, st, f.contract, pos, kws)          # @staticmethod: no self
         return apply_contract(ip, st, f.contract, [f.self_ref] + pos, kws)
     if k == "method":
         from .builtins_ import call_method
@@ -639,6 +641,13 @@ def elem_call(ip, st, el, meth, pos, kws):
     if meth == "__call__":
         if len(pos) == 1 and isinstance(pos[0], Opaque) and pos[0].sort == "V":
             f = reg.ufun("el_call", ["Obj", "V"], "V")
+            if ip.may_catch(st, "Exception") and not ip.spec_mode:
+                # a user callable may raise: abstract predicate of the callable and its argument
+                p = reg.ufun("el_call_raises", ["Obj", "V"], "Bool")
+                cond = T("(%s %s %s)" % (p, el.t.s, pos[0].t.s), "Bool")
+                bad = st.fork(cond, "uexc.")
+                ip.raise_(bad, "Exception")
+                st.assume(NOT(cond))
             return [(st, Opaque(T("(%s %s %s)" % (f, el.t.s, pos[0].t.s), "V")))]
         if not pos:
             # source-like element: returns a flow
@@ -683,8 +692,43 @@ def elem_call(ip, st, el, meth, pos, kws):
         f = reg.ufun("el_reset", ["Obj"], "St")
         set_elem_state(ip, st, el, T("(%s %s)" % (f, el.t.s), "St"))
         return [(st, NONE)]
+    if meth == "_set_context":
+        # static-context protocol of an element: stores / updates what it needs; may raise LenaKeyError (unresolved key)
+        from .dicts import dterm
+        cur = elem_state(ip, st, el)
+        c = dterm(ip, st, pos[0])
+        if ip.may_catch(st, "LenaKeyError"):
+            p = reg.ufun("el_setctx_raises", ["Obj", "St", "Val"], "Bool")
+            cond = T("(%s %s %s %s)" % (p, el.t.s, cur.s, c.s), "Bool")
+            bad = st.fork(cond, "ke.")
+            ip.raise_(bad, "LenaKeyError")
+            st.assume(NOT(cond))
+        f = reg.ufun("el_setctx", ["Obj", "St", "Val"], "St")
+        set_elem_state(ip, st, el, T("(%s %s %s %s)" % (f, el.t.s, cur.s, c.s), "St"))
+        # the element may change the dictionary it is given in place (SetContext does)
+        if isinstance(pos[0], Ref):
+            g = reg.ufun("el_setctx_out", ["Obj", "St", "Val"], "Val")
+            ip.store(st, pos[0], T("(%s %s %s %s)" % (g, el.t.s, cur.s, c.s), "Val"))
+        return [(st, NONE)]
+    if meth == "_get_context":
+        cur = elem_state(ip, st, el)
+        if ip.may_catch(st, "LenaKeyError"):
+            p = reg.ufun("el_getctx_raises", ["Obj", "St"], "Bool")
+            cond = T("(%s %s %s)" % (p, el.t.s, cur.s), "Bool")
+            bad = st.fork(cond, "ke.")
+            ip.raise_(bad, "LenaKeyError")
+            st.assume(NOT(cond))
+        f = reg.ufun("el_getctx", ["Obj", "St"], "Val")
+        res = ip.new_cell(st, ValCell(T("(%s %s %s)" % (f, el.t.s, cur.s), "Val")))
+        st.notes["deep_copies"] = set(st.notes.get("deep_copies", ())) | {res.cid}      # documented: a deep copy
+        return [(st, res)]
     if meth == "fill_into":
         raise U("fill_into on abstract element")
+    if len(pos) == 1 and not kws and meth.isidentifier():
+        # any other one-argument method of a user object on a flow value: a pure function of the object and the value
+        v = as_flow_value(ip, st, pos[0])
+        f = reg.ufun("el_m_" + meth, ["Obj", "V"], "V")
+        return [(st, Opaque(T("(%s %s %s)" % (f, el.t.s, v.t.s), "V")))]
     raise U("method %s of abstract element" % meth)
 
 
@@ -862,7 +906,16 @@ def _sf_in_loop(ip, e, st):
     return Bool(TRUE if st.notes.get("inloop_%s" % e.args[0].value) else FALSE)
 
 
-SPEC_FORMS = {"in_loop": _sf_in_loop, "made_in_iteration": _sf_made_in_iteration, "is_fresh": _sf_is_fresh, "arith_next": _sf_arith_next, "old": _sf_old, "implies": _sf_implies, "iff": _sf_iff, "pulled": _sf_pulled, "content": _sf_content,
+def _sf_is_deep_copy(ip, e, st):
+    """is_deep_copy(x): x is an object created during this call by copy.deepcopy (or handed out by a callee that
+    documents a deep copy): it shares no mutable object, at any depth, with anything that existed before"""
+    v = ip.ev1(e.args[0], st)
+    if isinstance(v, Ref):
+        return Bool(TRUE if (v.cid in st.notes.get("deep_copies", ()) and v.cid not in ip.entry.heap and not v.path) else FALSE)
+    return Bool(TRUE if isinstance(v, (Num, Bool, NoneV, Str)) else FALSE)
+
+
+SPEC_FORMS = {"is_deep_copy": _sf_is_deep_copy, "in_loop": _sf_in_loop, "made_in_iteration": _sf_made_in_iteration, "is_fresh": _sf_is_fresh, "arith_next": _sf_arith_next, "old": _sf_old, "implies": _sf_implies, "iff": _sf_iff, "pulled": _sf_pulled, "content": _sf_content,
               "rest": _sf_rest}
 SPEC_FORMS.update(_dict_forms())
 from .lib import FS_FORMS as _FS_FORMS
